@@ -434,6 +434,23 @@ def coop : P String := do
     s!"{comp} model={(coopSampleSR S A parents T bases s a us).1} impl={s1}"
   return v.render
 
+/-- `trajc S… A… F (agents feats rows)*F s0… us… | outcomes…` : `CooperativeModel::sampleSR` repeated on one object (s ← s1);
+    joint action of a step: agent j plays (Σ earlier outcomes + j) mod A_j -/
+def trajc : P String := do
+  let S ← P.nats; let A ← P.nats; let blocks ← P.list parentBlock; let s0 ← P.nats; let us ← P.qs; P.bar
+  let out ← P.nats; P.eof
+  let parents := blocks.map (·.1); let T := blocks.map (·.2)
+  if us.length != out.length || parents.length == 0 || us.length % parents.length != 0 then P.fail
+  let comp := "CooperativeModel::rollout"
+  let pol : List Nat → List Nat := fun h => A.mapIdx (fun j aj => (h.sum + j) % aj)
+  let row := coopRolloutRow S A parents T pol s0
+  let v : Verdict := { tag := "traj-coop" }
+  let v := (List.range out.length).foldl (fun v i =>
+    if v.tag == "illc" then v else denseOne comp (row (out.take i)) v (us.getD i 0, out.getD i 0)) v
+  let m := chainSample row us
+  let v := if v.tag == "illc" then v else v.diffIf (m != out) s!"{comp} model={m} impl={out}"
+  return v.render
+
 def finQ? : XRat → Option Rat
   | .fin q => some q
   | _ => none
@@ -515,6 +532,7 @@ def handle (toks : List String) : String :=
     | "seededrows" :: rest => P.run seededrows rest
     | "seedvar" :: rest => P.run seedvar rest
     | "fband" :: rest => P.run fband rest
+    | "trajc" :: rest => P.run trajc rest
     | _ => none
   r.getD "bad-op"
 
